@@ -24,6 +24,9 @@ class P(vlib.Prop):
             "factories, then StartAll, then one tagged payload is injected at every receiver instance; compared with "
             "the Coq model: Validate verdict, build error class (+ the named unsupported use / the reported cycle), "
             "multiset of created and of started component nodes, per receiver the multiset of (exporter, trail). "
+            "Thorough tier: 4500 random configurations plus EVERY configuration of two pipelines (ids among traces/p0, "
+            "traces/p1, metrics/p0; receivers and exporters any non-empty subset of {plain 0, connector 10}; zero or one "
+            "processor; connector 10 supporting all pairs / same-signal pairs / traces->metrics only): 5832 configurations. "
             "A case is non-trivial when the build fails or more than 3 components are created; distinct = distinct case terms.")
     trusted_base = [
         "Coq 8.16.1 kernel + vm_compute (coqc); no axioms (Print Assumptions: closed under the global context)",
